@@ -52,6 +52,12 @@ def check_table(out: Outcome, c: C.Cascade, pt, shifted: bool, where: str, tag: 
         out.fail(f"C05.{tag}_empty", f"{where}: empty table")
         return
     eps = P.eps_of(c)
+    import math
+
+    for col in ("T", "ΔT", HOT, COLD, NET, "mcp_hot_tot", "mcp_cold_tot", "ΔH_hot", "ΔH_cold", "ΔH_net"):
+        if any(not math.isfinite(float(x)) for x in pt.col[col]):
+            out.fail(f"C05.{tag}_non_finite", f"{where}: column {col} holds a value that is not a finite number")  # a NaN would pass every |a - b| > tol test below
+            return
     T = [Fr(repr(float(x))) for x in pt.col["T"]]
     hh, hc, hn = pt.col[HOT], pt.col[COLD], pt.col[NET]
     # rows strictly descending
